@@ -320,22 +320,37 @@ class ExprMixin(Core):
         return z3.If(y > 0, q, z3.If(x - y * q == 0, q, q - 1))
 
     def bitop(self, op, x, y, st):
-        """bit operators on non-negative ints below 2**32, through 32-bit vectors (exact on that range);
-        the range is a safety obligation."""
+        """bit operators: shifts by a constant are multiplication / floor division by a power of two and `& (2**k-1)` is
+        `mod 2**k` (exact for every Python int); `|` is uninterpreted with the facts about disjoint bit ranges; anything
+        else goes through 32-bit vectors (exact on 0 .. 2**32-1, and that range is then a safety obligation)."""
         lim = 2 ** 32
         if isinstance(op, ast.LShift):
             if st.mode == "code":
-                self.oblige(st, "safety:shift", z3.And(y >= 0, y <= 32, x >= 0))
+                self.oblige(st, "safety:shift", y >= 0)
             # x << y == x * 2**y ; y is a constant in the verified code
             ys = z3.simplify(y)
             if z3.is_int_value(ys):
                 return x * (2 ** ys.as_long())
             raise Unsupported("shift by non-constant")
+        if isinstance(op, ast.BitAnd):
+            ys = z3.simplify(y)
+            if z3.is_int_value(ys) and ys.as_long() >= 0 and (ys.as_long() + 1) & ys.as_long() == 0:
+                return x % (ys.as_long() + 1)  # x & (2**k - 1) == x mod 2**k (two's complement, any int)
+        if isinstance(op, ast.BitOr):
+            # uninterpreted, with the facts the package's bit tricks rest on (valid for non-negative operands):
+            # disjoint bit ranges add up; the result is bounded by the operands
+            f = self.uf("bit_or", z3.IntSort(), z3.IntSort(), z3.IntSort())
+            r = f(x, y)
+            facts = [z3.Implies(z3.And(x >= 0, y >= 0), z3.And(r >= x, r >= y, r <= x + y))]
+            for k in (4, 8, 10, 16):
+                m = 2 ** k
+                facts.append(z3.Implies(z3.And(x >= 0, y >= 0, y < m, x % m == 0), r == x + y))
+                facts.append(z3.Implies(z3.And(x >= 0, y >= 0, x < m, y % m == 0), r == x + y))
+            self.axioms.append(z3.And(*facts))
+            return r
         if st.mode == "code":
             self.oblige(st, "safety:bitrange", z3.And(x >= 0, x < lim, y >= 0, y < lim))
         bx, by = z3.Int2BV(x, 32), z3.Int2BV(y, 32)
-        if isinstance(op, ast.BitOr):
-            return z3.BV2Int(bx | by)
         if isinstance(op, ast.BitAnd):
             return z3.BV2Int(bx & by)
         if isinstance(op, ast.RShift):
